@@ -36,6 +36,11 @@ CHECKS={
    text='(a) every store of the C08 scope with <=2 tasks (thorough: + restricted 3-task stores): dry run vs --yes vs the stated policy (done/canceled tasks, then childless epics), dry run byte-identical, pruned ids gone from all lists, dependents\' readiness recomputed, and 9 commands per pruned id must each fail and change nothing; (b) 4 creating commands x every answer of the scripted random source (fresh / collides with live id / with tombstoned task / with tombstoned epic): an acknowledged create must exist and never carry a tombstoned id; commands after compact; (c) all k! orders of a pruned id\'s 7 events in a hand-merged log: none resurrects it or leaves edges behind.',
    note='ids forced through a scripted crypto/rand source (server and spawned verif binary). Re-issue after compact not explored (no record of the id remains). Synthesised logs in ergo\'s format.',
    technique='exhaustive small-scope enumeration (states, environment answers, event permutations) over real commands'),
+
+ 'C16': dict(engine='SEQ', level='model_checking', design='3/C16',
+   text='Every request of the C10 catalogue (every command, field combination, input mode, failing variants) plus success-oriented requests for every data command, all with --json placed before and after the subcommand, on 3 pre-states: a success must print exactly one JSON value (strict decoder + EOF), a failure must have stderr and at most one JSON error object on stdout, and every field of a success reply (new ids fresh and well-formed, state, claimant, claimed_at, epic, title, body, edges present/absent, plan ids/order/edges, pruned ids incl. dry-run = --yes on a copy, where/init paths) must equal what an immediately following show/list reports.',
+   note='Finite catalogue over small value domains; documentation printers (quickstart, version, --help) are outside the alphabet. Server backend conformance-checked each run.',
+   technique='exhaustive small-scope enumeration of requests over real commands + differential read-back'),
 }
 NA_REASON='check not built yet (work in progress; design in DESIGN.md)'
 m={"version":1,
